@@ -72,6 +72,8 @@ func closeBodies() []closeClass {
 		{"code1012", code(1012, ""), vUnspecified},
 		{"code1014", code(1014, ""), vUnspecified},
 		{"code3000", code(3000, "app"), vValid},
+		{"reason-U+FFFD", code(1000, "a\uFFFDb"), vValid},
+		{"reason-U+10FFFF-NUL", code(1001, "\U0010FFFF\x00"), vValid},
 		{"code1011", code(1011, ""), vValid},
 	}
 	return cs
